@@ -818,3 +818,7 @@ def run(chk, tier, only_rule=None):
     r05_8(chk, tier)
     r05_9(chk, tier)
     r05_10(chk, tier)
+    # memory safety of the bigint storage: stale views (R04.5) and growth order (R04.6)
+    from . import c04
+    c04.r04_5(chk, facts)
+    c04.r04_6(chk, facts)
